@@ -463,3 +463,7 @@ def check(run, prog, tier):
     import callgraph
     import rules.C01i as c01i
     c01i.check(run, prog, tier, callgraph.CallGraph(prog))
+
+    # ---- C01-e optional / multi-typed efun arguments
+    import rules.C01e as c01e
+    c01e.check(run, prog, tier, callgraph.CallGraph(prog))
